@@ -50,6 +50,9 @@ type impl struct{}
 
 func (impl) M() { g1 = 2 }
 
+// MkI: (nothing)
+func MkI() I { return impl{} }
+
 // ViaIface: W g1   (interface call resolved by class hierarchy)
 func ViaIface(i I) { i.M() }
 
